@@ -128,6 +128,9 @@ def generate(ctx):
             shared = rng.sample(loadable, rng.randint(2, 4))
             sp_table = [dict(sp, name="MOL") if k in shared else sp for k, sp in enumerate(table)]
             cls = "random-shared-molecule-name"
+        # work package WPI: str(system) and an index that is neither int nor slice (no random number is drawn for
+        # them: every other part of the case is what it was)
+        ops = ops + [["str"], ["o", G.OTHER_KINDS[i % len(G.OTHER_KINDS)]]]
         yield {"kind": "system", "cls": cls, "vel": rng.random() < 0.5, "coordseed": rng.randrange(1 << 30),
                "species": sp_table, "blocks": blocks, "load": load, "ops": ops}
     # ---- refusal stream
@@ -326,6 +329,9 @@ def evaluate(ctx, case):
         if isinstance(b, int) and b in accepted:
             want.append((accepted.index(b), b, block_atoms[bi], block_res[bi]))
     nmol = len(want)
+    ctx.oracle_ok(1)
+    if sysm.fgro != path or sysm.system_gro.fgro != path:
+        ctx.oracle_fail("System.fgro:not-the-file-name", case, {"fgro": sysm.fgro})
     ctx.case({k: case[k] for k in ("cls", "species", "blocks", "load", "ops", "vel", "coordseed")},
              nontrivial=nmol >= 2,
              sample={"cls": case["cls"], "blocks": len(blocks), "load": load, "molecules": nmol})
@@ -346,6 +352,12 @@ def evaluate(ctx, case):
                 # FILE's coordinates again next time (seed C11-7: parsed residues cached per index + a copy that
                 # adopts the residues it is given)
                 got.move(np.array([0.5, -1.5, 2.0]))
+            elif op[0] == "str":
+                results.append(("T", str(sysm)))
+                continue
+            elif op[0] == "o":
+                sysm[G.other_index(op[1])]
+                r = []
             else:
                 gots = sysm[slice(op[1], op[2], op[3])]
                 r = [_mol_view(sysm, m, None) for m in gots]
@@ -400,6 +412,20 @@ def evaluate(ctx, case):
                             {"composition": st["composition"], "list": sorted(comp.items())})
         for op, res in zip(ops, results):
             ctx.oracle_ok()
+            if op[0] == "str":
+                ctx.count("op:str" + (":empty" if not comp else ""))
+                wants = G.expected_str(comp) if comp else "Simulation system with no loaded molecules."
+                if res != ("T", wants):
+                    ctx.oracle_fail("System.__str__:not-the-sorted-composition", case, {"got": res[1], "want": wants})
+                    break
+                continue
+            if op[0] == "o":
+                ctx.count("op:o:" + str(op[1]))
+                if res != ("E", "TypeError") and not (str(op[1]).startswith("np") and res[0] == "M"):
+                    # (a numpy integer is an index for a Python list; the system refuses it today)
+                    ctx.oracle_fail("System.__getitem__(other type):not-a-TypeError", case, {"op": op, "got": res[:2]})
+                    break
+                continue
             try:
                 if op[0] == "it":
                     wantr = ("M", listed)
@@ -492,8 +518,13 @@ def evaluate(ctx, case):
             t = T.tok()
             if t == "E":
                 m = ("E", T.tok())
+            elif t == "T":
+                m = ("T", T.str())
             else:
                 m = ("M", T.list(lambda: (T.int(), [[atoms[d] for d in r] for r in T.list(T.residue)])))
+            if m != res and "T" in (m[0], res[0]):
+                ctx.disagree(case, f"op {k} {case['ops'][k]}", res[1], m[1])
+                return
             if m != res:
                 ctx.disagree(case, f"op {k} {case['ops'][k]}",
                              res[1] if res[0] == "E" else [(x[0], [len(r) for r in x[1]]) for x in res[1]][:10],
@@ -502,6 +533,6 @@ def evaluate(ctx, case):
         if not T.done():
             ctx.disagree(case, "trailing model output", "", toks[T.i:T.i + 5])
 
-    ctx.model.ask("system", toks, cb, case)
+    ctx.model.ask("systemx" if any(o[0] in ("str", "o") for o in ops) else "system", toks, cb, case)
     if _counter[0] % 1000 == 0:
         ctx.model.flush(ctx)      # the callbacks hold every op result of the case: keep memory bounded
